@@ -29,6 +29,7 @@ import Model.Gen.ObjectsG
 import Proofs.Lemmas.History
 import Proofs.Lemmas.ObjectsSound
 import Proofs.Lemmas.StreamSound
+import Proofs.Lemmas.SalsaEnd
 import Proofs.Lemmas.Fields
 namespace Proofs.C10
 open Model Model.Objects Proofs.Lemmas.History Proofs.Lemmas.ObjectsSound Proofs.Lemmas.StreamSound Proofs.Lemmas.Fields
@@ -272,6 +273,21 @@ theorem stream_history_independent (c : StreamO.Cfg) (hc : StreamAdm c) (ops : L
     (p : StreamO.Op) (hp : StreamO.isProbe p = true) (hvp : StreamValid p) :
     StreamO.machine.after c ops p = StreamO.machine.out (StreamO.init c) p :=
   history_independent' stream_sound (fun _ _ => rfl) c hc ops hv p hp hvp
+
+/-- the hypothesis `StreamAdm` holds for every object the library can build: `Salsa20(Bits(key,bitorder=1),rounds)` and
+    `Chacha(…)` with a 16- or 32-byte key leave 16 words of 32 bits in `p` (C06 key-expansion lemmas) -/
+theorem stream_adm_of_constructor (chacha : Bool) (key : List (BitVec 8)) (hk : key.length = 16 ∨ key.length = 32) (rounds : Int)
+    (hr : rounds > 0 ∧ rounds % 2 = 0) :
+    ∃ st : Salsa.State, (do let K ← Bits.ofBytes (key.map BitVec.toNat) none 1
+                            if chacha then Chacha.init (some K) rounds else Salsa.init (some K) rounds) = .ok st ∧
+      StreamAdm { chacha := chacha, K := st.K, dround := st.dround, p0 := st.p } := by
+  cases chacha with
+  | false =>
+    obtain ⟨ks, h⟩ := Proofs.Lemmas.SalsaEnd.salsa_init_bytes key hk rounds hr
+    exact ⟨_, h, _, Proofs.Lemmas.SalsaEnd.salsaP_length key, rfl⟩
+  | true =>
+    obtain ⟨ks, h⟩ := Proofs.Lemmas.SalsaEnd.chacha_init_bytes key hk rounds hr
+    exact ⟨_, h, _, Proofs.Lemmas.SalsaEnd.chachaP_length key, rfl⟩
 
 /-! ### Keccak: the cheap successor function of the driver -/
 theorem keccak_next_is_step (s : KeccakO.State) (op : KeccakO.Op) : KeccakO.next s op = (KeccakO.step s op).1 := keccak_next_eq_step s op
